@@ -878,6 +878,33 @@ void sh_containers()
       CK(seen == s && !bad, "either::loop:body_calls", "body saw %s", show_seq(seen, show_int).c_str());
       CK(next_calls == static_cast<int>(s.size()) + 1, "either::loop:next_calls", "next called %d times, want %zu", next_calls, s.size() + 1);
     }
+  // loop over long runs (scale lattice): n successes, then the failure.  loop is documented as a loop; it has to return the
+  // failure after any number of successes (an implementation whose stack use grows with n dies here under ASan)
+  for (long n : {0L, 1L, 2L, 16L, 1000L, 65536L, 1000000L, 4000000L})
+  {
+    if (!vrt::begin("either::loop<long run>", n))
+      continue;
+    auto desc = [&] { return std::string("either::loop(next yields ") + std::to_string(n) + " successes, then failure 1)"; };
+    vrt::nontrivial(n >= 1000);
+    long produced = 0, consumed = 0;
+    bool bad = false;
+    auto const next = [&]() -> EI
+    {
+      if (produced < n)
+      {
+        ++produced;
+        return EI{D{static_cast<int>(produced % 3)}};
+      }
+      return EI{E{1}};
+    };
+    auto const body = [&](D d)
+    {
+      ++consumed;
+      bad = bad || !d.ok() || d.v != static_cast<int>(consumed % 3);
+    };
+    E const r = fcppt::either::loop(next, body);
+    CK(r.v == 1 && consumed == n && !bad, "either::loop:long_run", "failure %d, body ran %ld times for %ld successes", r.v, consumed, n);
+  }
   // sequence_error: f maps each element to no_error / failure 0 / failure 1 (27 tables); stops at the first failure
   for (int cat = 0; cat < 3; ++cat)
     for (std::size_t si = 0; si < runs.size(); ++si)
